@@ -26,7 +26,12 @@ def jobs(tier, seed):
             for kind in (0, 1, 2):
                 for nlen in ((3, 4, 7, 10) if kind == 0 else (4,)) if tier == 'quick' else (3, 4, 6, 7, 10):
                     if op != 0 and (kind, nlen) != (0, 4): continue
-                    out.append({'entry': 'h_c09_tree', 'harness': 'h_c09.cpp', 'name': 'tree', 'cfg': {'depth': depth, 'start': start, 'kind': kind, 'nlen': nlen}, 'forced': [op]})
+                    if depth >= 3:
+                        for op2 in range(7):      # split the work: the first two operations are fixed per job
+                            if op2 == 0 and op == 0 and nlen > 4: continue
+                            out.append({'entry': 'h_c09_tree', 'harness': 'h_c09.cpp', 'name': 'tree', 'cfg': {'depth': depth, 'start': start, 'kind': kind, 'nlen': nlen}, 'forced': [op, op2]})
+                    else:
+                        out.append({'entry': 'h_c09_tree', 'harness': 'h_c09.cpp', 'name': 'tree', 'cfg': {'depth': depth, 'start': start, 'kind': kind, 'nlen': nlen}, 'forced': [op]})
     return out
 
 def prod64(dims):
